@@ -20,6 +20,19 @@ structure IncludeDecl where
   vars : Vars
 deriving Repr, DecidableEq
 
+/-- the file-level keys that are DEFAULTS FOR THE TASKS of the file ("Default method in this
+Taskfile", "Default 'silent' options for this Taskfile", …): `silent` 0/1, `method`
+(0 = not declared, 1 checksum, 2 timestamp, 3 none), `run` (0 = not declared, 1 always,
+2 once, 3 when_changed), `set` / `shopt` as bit sets over the option pools of the generator
+(`slicesext.UniqueJoin` sorts and removes duplicates: a set). -/
+structure Defaults where
+  silent : Nat := 0
+  method : Nat := 0
+  run : Nat := 0
+  set : Nat := 0
+  shopt : Nat := 0
+deriving Repr, DecidableEq
+
 structure Taskfile where
   version : Nat          -- schema version (0 = the key is absent)
   dotenv : Bool          -- `dotenv:` is non-empty
@@ -28,7 +41,44 @@ structure Taskfile where
   env : Vars
   tasks : Table
   includes : List IncludeDecl
+  defaults : Defaults := {}
+  output : Nat := 0      -- `output:` style (0 = not set, 1 interleaved, 2 group, 3 prefixed)
 deriving Repr, DecidableEq
+
+/-! ### File-level defaults go with the tasks (`Tasks.setDefaults`)
+
+Positions in the attribute record of a task (`Task.attrs`, harness `attrNames`): -/
+
+abbrev posSilent : Nat := 0
+abbrev posMethod : Nat := 4
+abbrev posRun : Nat := 5
+abbrev posSet : Nat := 15
+abbrev posShopt : Nat := 16
+
+/-- one attribute under the defaults `d`: `silent` is or-ed, `method` / `run` are taken when
+the task declares none, `set` / `shopt` are united; every other attribute is untouched -/
+def defaultAt (d : Defaults) (i a : Nat) : Nat :=
+  match i with
+  | 0 => max a d.silent
+  | 4 => if a = 0 then d.method else a
+  | 5 => if a = 0 then d.run else a
+  | 15 => a ||| d.set
+  | 16 => a ||| d.shopt
+  | _ => a
+
+def applyDefaultsFrom (d : Defaults) : Nat → List Nat → List Nat
+  | _, [] => []
+  | i, a :: r => defaultAt d i a :: applyDefaultsFrom d (i + 1) r
+
+/-- `Tasks.setDefaults` on one task's attributes -/
+def applyDefaults (d : Defaults) (attrs : List Nat) : List Nat := applyDefaultsFrom d 0 attrs
+
+def bakeTask (d : Defaults) (t : Task) : Task := { t with attrs := applyDefaults d t.attrs }
+
+/-- `t2.Tasks.setDefaults(t2.Method, t2.Run, t2.Silent, t2.Set, t2.Shopt)`: the first thing
+`Taskfile.Merge` does to the tasks of the included file (in place; doing it again changes
+nothing: `bake_idem`) -/
+def Taskfile.bake (tf : Taskfile) : Taskfile := { tf with tasks := tf.tasks.map (bakeTask tf.defaults) }
 
 /-- which variable map `Taskfile.Merge` hands to `Tasks.Merge` as
 `includedTaskfileVars`: read from the source by the extractor
@@ -40,12 +90,15 @@ def itvOf (t1merged t2 : Taskfile) : Vars :=
 advanced import, nothing otherwise -/
 def stampFor (inc : Include) : Option Dir := if inc.advanced then some inc.dir else none
 
-/-- `t1.Merge(t2, include)` -/
+/-- `t1.Merge(t2, include)` once `setDefaults` has been applied to `t2` (`Graph.mergeIncs`
+hands it `t2.bake`).  The output style of the included file is taken only when the including
+file sets none (it is a setting of the whole run, not a default for tasks). -/
 def mergeTaskfile (t1 t2 : Taskfile) (inc : Include) : Except Err Taskfile :=
   if t1.version ≠ t2.version then .error .version
   else if t2.dotenv then .error .dotenv
   else
-    let t1' : Taskfile := { t1 with vars := Vars.merge t1.vars (stampFor inc) t2.vars, env := Vars.merge t1.env (stampFor inc) t2.env }
+    let t1' : Taskfile := { t1 with vars := Vars.merge t1.vars (stampFor inc) t2.vars, env := Vars.merge t1.env (stampFor inc) t2.env,
+                                    output := if t1.output = 0 then t2.output else t1.output }
     match mergeTasks t1'.tasks t2.tasks inc (itvOf t1' t2) with
     | .ok tb => .ok { t1' with tasks := tb }
     | .error e => .error e
